@@ -556,7 +556,7 @@ func diffClass(d string) string {
 }
 
 func runC07(ctx *Ctx) error {
-	ctx.Res.Rule = "seeded component schemas (objects with required/optional/nullable/readOnly/writeOnly members, nested and referenced objects, arrays, maps, additionalProperties true/false/schema, allOf, oneOf, every handled format incl. the ten integer formats with their extremes, enums; fixed shapes FixA–FixI, a base tightened by a composition declared before it) x nullable-type on/off x compatibility flags, compiled (models only); schema-directed valid instances incl. boundary values (empty arrays/objects/strings, explicit nulls, int64 extremes, 2^53+1, float32-exact and float64 edge decimals, escaped and non-ASCII strings, extra members where additionalProperties is declared, also one that differs from a declared member in case only; the input buffer is overwritten after decoding) decoded into the generated type and encoded again; semantic JSON equality, the only tolerated difference an absent *nullable* member reappearing as null; CORR of encoding/json with Model/GoJson.lean in both directions on reflect-built types (integers of every width); non-trivial = every (schema, instance)"
+	ctx.Res.Rule = "seeded component schemas (objects with required/optional/nullable/readOnly/writeOnly members, nested and referenced objects, arrays, maps, additionalProperties true/false/schema, allOf, oneOf, every handled format incl. the ten integer formats with their extremes, enums; fixed shapes FixA–FixI, a base tightened by a composition declared before it) x nullable-type on/off x compatibility flags, compiled (models only); schema-directed valid instances incl. boundary values (empty arrays/objects/strings, explicit nulls, int64 extremes, 2^53+1, float32-exact and float64 edge decimals, escaped and non-ASCII strings, extra members where additionalProperties is declared, also one that differs from a declared member in case only; the input buffer is overwritten after decoding) decoded into the generated type and encoded again; semantic JSON equality, the only tolerated difference an absent *nullable* member reappearing as null; CORR of encoding/json with Model/GoJson.lean in both directions on reflect-built types (integers of every width); non-trivial = every (schema, instance) Session 9: an instance with additional members decoded into a value that has just held another document (structs); disable-type-aliases-for-type with other type names in half of the documents; fixed shape A1Alias."
 	if err := corrGoJSON(ctx, ctx.N(4000, 60000)); err != nil {
 		return err
 	}
